@@ -6,7 +6,7 @@ SPEC = dict(
     harness=['h_tree.c'],
     level='exploration',
     rule='(1) every AVL shape reachable through the real library with <= N nodes (N=15 quick, 20 thorough) is enumerated by a fixpoint over '
-         'insert/remove transitions; on each shape EVERY insert position (n+1 gaps), every remove (n nodes), every duplicate insert and every '
+         'insert/remove transitions; on each shape EVERY insert position (n+1 gaps), every remove (n nodes), every duplicate insert (with a fresh equal-key node and with the resident node object itself) and every '
          'lookup is executed through the library and followed by the invariant walker (BST order, |hR-hL|<=1, stored factor == hR-hL, parent '
          'links, node identity, element set == model) - because the code only compares keys this is every (state, operation) pair of every '
          'history whose tree stays within N nodes. (2) seeded random/adversarial histories (9 patterns, key spaces 8..4096, a_avl_insert and the '
@@ -14,7 +14,7 @@ SPEC = dict(
          '(structure + stored factors) trees on which the walker ran after an operation.',
     exhaustive={'quick': 'all (shape, operation) pairs for reachable AVL shapes with <= 15 nodes',
                 'thorough': 'all (shape, operation) pairs for reachable AVL shapes with <= 20 nodes'},
-    require=['walker-runs', 'bfs-insert-transitions', 'bfs-remove-transitions', 'dup-insert-returns-resident',
+    require=['walker-runs', 'bfs-insert-transitions', 'bfs-remove-transitions', 'dup-insert-returns-resident', 'dup-insert-of-resident-object',
              'insert-returns-null-for-new-key', 'search-agrees-with-model'],
     cov_files=['avl.c'], cov_funcs=r'^a_avl_(?!head|tail|next|prev|pre_|post_|tear)', cov_cases=120,
     assumptions=_COMMON + ['removed nodes are free()d immediately, so a stale link is reported by ASan as use-after-free',
